@@ -213,7 +213,10 @@ def driver_snapshot(prop):
     with _Lock():
         if not os.path.exists(exe):
             raise InfraError("driver binary missing: " + exe)
-        d = tempfile.mkdtemp(prefix="nixdriver-")
+        # inside the run's scratch directory when there is one (removed by Ctx.cleanup also when this process is a
+        # forked worker whose atexit handlers never run)
+        root = os.environ.get("NIXVERIF_SCRATCH")
+        d = tempfile.mkdtemp(prefix="nixdriver-", dir=root if root and os.path.isdir(root) else None)
         dst = os.path.join(d, driver_target(prop))
         shutil.copy2(exe, dst)
     import atexit
@@ -281,6 +284,7 @@ class Ctx:
         self.t0 = time.time()
         self.notes = []
         self.scratch = tempfile.mkdtemp(prefix="nixverif-%s-" % prop)
+        os.environ["NIXVERIF_SCRATCH"] = self.scratch
         self.changed_files = changed_anchor_files(prop)
         self.boost = 2 if self.changed_files else 1
 
